@@ -26,6 +26,8 @@ def gen_scenario(rng: random.Random, focus: str = "any") -> dict:
     }
     if rng.random() < 0.3:
         sc["time_scale"] = rng.choice([0.5, 2.0, 4.0])
+    if focus in ("C04", "any") and rng.random() < 0.2:
+        sc["prelaunch"] = True     # start from the final state of a preparatory launch (load path)
     n = rng.randint(1, 6)
     client = []
     for _ in range(n):
@@ -84,6 +86,15 @@ def gen_scenario(rng: random.Random, focus: str = "any") -> dict:
         sc["pause_timeout"] = rng.choice([5.0, 20.0])
         sc["durations"] = {"step": rng.choice([0.0, 0.5, 2.0]), "train": rng.choice([0.0, 1.0, 3.0]),
                            "on_paused": rng.choice([0.0, 0.25]), "on_resumed": rng.choice([0.0, 0.25])}
+        if rng.random() < 0.5:
+            # time-out just above what the in-flight work can need (the boundary of "acknowledged at
+            # the first attempt"), with the clock scaled: budgets must be in real seconds
+            d = sc["durations"]
+            n_inf = 3 if sc.get("child_agent") else 2
+            inf_path = d["step"] * (n_inf - 1) + n_inf * (d["on_paused"] + d["on_resumed"])
+            tr_path = d["train"] + max(1, sc["trainers"]) * (d["on_paused"] + d["on_resumed"])
+            sc["pause_timeout"] = max(inf_path, tr_path) + 1.5 + rng.choice([0.25, 0.5, 1.0])
+            sc["time_scale"] = rng.choice([1.0, 2.0, 4.0, 8.0])
         tcl = []
         for c in client:
             tcl.append(["delay", rng.choice([0.0, 0.5, 1.5, 4.0])])
